@@ -332,6 +332,35 @@ pub fn run(g: &mut Global) {
         },
         &check,
     );
+    // a flat stretch after a long one-directional run (thousands of bars without a single move the other way,
+    // pauses allowed): one of two averages of movement has decayed to nothing while the other has not
+    g.exhaustive(
+        "flat_after_monotone_run",
+        22 * 4 * 2 * 2,
+        &move |i| {
+            let up = i % 2 == 0;
+            let r = i / 2;
+            let scalar = r % 2 == 0;
+            let r = r / 2;
+            let n = [2usize, 4, 8, 14][(r % 4) as usize];
+            let kind = ALL_KINDS[(r / 4) as usize];
+            let len = [900usize, 1800, 3600, 6000][(r % 4) as usize];
+            let level = 250.0f64;
+            let mut s = seed ^ (i + 9).wrapping_mul(0x9E3779B97F4A7C15);
+            let mut x = if up { level / 3.0 } else { level * 3.0 };
+            let f = 3f64.powf(1.0 / len as f64);
+            let mut prefix: Vec<RawBar> = Vec::with_capacity(len + 1);
+            for _ in 0..len {
+                if unit(&mut s) > 0.1 {
+                    x = if up { x * f } else { x / f };
+                }
+                prefix.push(RawBar { o: x, h: x * 1.001, l: x * 0.999, c: x, v: 100.0 });
+            }
+            let last = prefix.last().unwrap().c;
+            Case { cfg: cfg_small(kind, n), scalar, prefix, zv: vec![], level: X(last), vol: X(100.0), flat_len: 300, neg_zero_mask: 0, gen_prefix: None }
+        },
+        &check,
+    );
     let th = g.tier == Tier::Thorough;
     g.random("random", g.tier.pick(100000, 10000000), &move || strategy(th), &check);
     // identity events (tele.rs): at one or two steps the instance is replaced by its clone, by a used instance
